@@ -1,4 +1,4 @@
-import Sismic.Model.Basic
+import Sismic.Model.Plan
 /-!
 # Sismic.Spec.WF — structural notions the properties quantify over (DESIGN.md §2)
 -/
@@ -16,5 +16,43 @@ structure TreeOK (c : Chart) : Prop where
 
 /-- `Sub c x y`: `y` is `x` or one of its descendants. -/
 def Sub (c : Chart) (x y : Name) : Prop := y = x ∨ Anc c x y
+
+end Sismic
+
+namespace Sismic
+
+/-- **Well-formed statecharts** (DESIGN.md §2, W1–W8), as far as the interpreter theorems need them.
+    `wfB` (below) decides it; the driver reports `wfB` for every chart it is given. -/
+structure WFChart (c : Chart) : Prop where
+  /-- W2: the parent map is a forest -/
+  tree : TreeOK c
+  /-- W1: state names are unique -/
+  names : (c.states.map (·.name)).Nodup
+  /-- W2: there is a root, it has no parent and it is a state -/
+  root : ∃ r, c.root = some r ∧ c.parentFor r = none ∧ c.hasState r = true
+  /-- W2: parents and children are states -/
+  parentState : ∀ s p, c.parentFor s = some p → c.hasState s = true ∧ c.hasState p = true
+  /-- W2: every state but the root has a parent -/
+  nonroot : ∀ s, c.hasState s = true → c.root ≠ some s → ∃ p, c.parentFor s = some p
+  /-- W2: the children lists are the inverse of the parent map, without repetition -/
+  children : ∀ p ch, ch ∈ c.childrenFor p ↔ c.parentFor ch = some p
+  childrenNodup : ∀ p, (c.childrenFor p).Nodup
+  /-- W3: only composite states have children -/
+  composite : ∀ s p, c.parentFor s = some p → c.kindOf p = some .compound ∨ c.kindOf p = some .orthogonal
+  /-- W4: a compound state declares an initial state, one of its children -/
+  initial : ∀ z sd, c.stateFor z = some sd → sd.kind = .compound →
+    ∃ i, sd.initial = some i ∧ c.parentFor i = some z
+  /-- W5: the regions of an orthogonal state are basic, compound or orthogonal states -/
+  regions : ∀ z ch k, c.kindOf z = some .orthogonal → c.parentFor ch = some z → c.kindOf ch = some k →
+    k.ownsTransitions = true
+  /-- W6: a history state lives in a compound state and has a default memory among its siblings -/
+  history : ∀ h sd, c.stateFor h = some sd → sd.kind.isHistory = true →
+    ∃ p m, c.parentFor h = some p ∧ c.kindOf p = some .compound ∧ sd.memory = some m ∧
+      c.parentFor m = some p ∧ m ≠ h
+  /-- W7: transitions connect states -/
+  transitions : ∀ t ∈ c.transitions, c.hasState t.source = true ∧ ∀ tg, t.target = some tg → c.hasState tg = true
+  /-- W8: no transition crosses between sibling regions of an orthogonal state -/
+  noCross : ∀ t ∈ c.transitions, ∀ tg l, t.target = some tg → c.lca t.source tg = some l →
+    c.kindOf l = some .orthogonal → lastBefore c t.source (some l) = lastBefore c tg (some l)
 
 end Sismic
